@@ -12,8 +12,8 @@ from .common import REPO
 from .model import Src, g_char, g_text
 from .refs import DIALECTS
 
-SOUP_ALPHABET = ["|", "\\", "n", "@", "#", ":", '"', "`", "<", ">", " ", "\t", "\r", "\n", "\n", "a", "*", "-"]
-DECOYS = ["@a b", "@", "@t #c", "#language: xx", "# language: fr", "#language:en", "| a |", "| a | b |", "|", "| \\", "| \\| | \\n |", '"""', "```",
+SOUP_ALPHABET = ["|", "\\", "n", "@", "#", ":", '"', "`", "<", ">", " ", "\t", "\r", "\n", "\n", "a", "*", "-", "{", "}", "%", "'", "$", "(", ")", "[", "]"]
+DECOYS = ["{\"json\": {\"a\": 1}}", "Given {int} cukes", "{0} {name} {", "} %s %d %(k)s", "100% done", "it's", "@a b", "@", "@t #c", "#language: xx", "# language: fr", "#language:en", "| a |", "| a | b |", "|", "| \\", "| \\| | \\n |", '"""', "```",
           '"""json', "``` x", "Examples:", "Scenario: s", "Scenario Outline: <a>", "Feature: f", "Rule: r", "Background:", "Given x", "And <a>", "* y",
           "When ", "Then <b> z", "", "  ", "text", "\t", "\r", "<a>", "|(|", "| a(b | $1 |", "Given <a(b> <$1> <[>", "@x #c", " ", "\x0b", "\x1c", "\x85",
           "Fonctionnalité: z", "Scénario: q", "Soit x", "Egenskap: e", "Examples: e", "@a @b", "# c"]
@@ -181,4 +181,20 @@ def big_documents(thorough=False):
         out.append(("long-line-step-%d" % n, "Feature: f\n Scenario: s\n  Given " + long + "\n  Then z\n"))
         out.append(("long-line-comment-cell-%d" % n, "# " + long + "\nFeature: f\n Scenario: s\n  Given t\n   | " + long + " | b |\n"))
         out.append(("bad-long-line-%d" % n, long + "\nFeature: f\n"))
+    return out
+
+
+def length_boundary_documents(thorough=False):
+    """lines whose length sits on the boundaries a truncation / buffer / column limit would pick (..63 64 65 .. 159 160 161 ..)"""
+    Ls = [15, 16, 17, 31, 32, 33, 63, 64, 65, 79, 80, 81, 99, 100, 101, 119, 120, 121, 127, 128, 129, 158, 159, 160, 161, 199, 200, 201, 255, 256, 257]
+    Ls += [511, 512, 513, 1023, 1024, 1025, 4095, 4096, 4097] if thorough else [1023, 1024, 1025]
+    out = []
+    for L in Ls:
+        w = ("word " * (L // 5 + 1))[:L].rstrip() or "w"
+        w = w + "x" * (L - len(w))
+        out.append(("name-%d" % L, "Feature: %s\n Scenario: %s\n  Given %s\n   | %s | b |\n @%s\n Scenario: t\n" % (w, w, w, w, w.replace(" ", "_"))))
+        out.append(("description-%d" % L, "Feature: f\n %s\n # %s\n Scenario: s\n  Given d\n   ```%s\n   %s\n   ```\n" % (w, w, w.replace(" ", "/"), w)))
+        out.append(("bad-line-%d" % L, "Feature: f\n Scenario: s\n  Given x\n  Examples:\n%s\n  Then y\n" % w))
+        out.append(("bad-line-indented-%d" % L, "%s\nFeature: f\n   \t%s  \n" % (w, w)))
+        out.append(("bad-tag-%d" % L, "Feature: f\n @%s x\n Scenario: s\n" % w.replace(" ", "_")))
     return out
